@@ -3,7 +3,7 @@ package main
 func init() {
 	plans["C02"] = plan{
 		Level: "exploration",
-		Parts: []part{{"B", "mixed", 110000, 4}, {"B", "stop", 40000, 2}, {"B", "nofault", 6000, 1}},
+		Parts: []part{{"B", "mixed", 110000, 4, 0}, {"B", "stop", 40000, 2, 0}, {"B", "nofault", 6000, 1, 0}},
 		Rule: "each run = one seeded scenario (chunk feed schedule, per-connection-attempt script of connect/send/ping/ACK outcomes, knob values, " +
 			"stop and SIGUSR1 times) executed under one seeded goroutine schedule; the history of send-complete / ACK-returned / consumed / " +
 			"handed-back / finished events is checked against the reference model (S1 consumed only after complete send + designating ACK on the same " +
@@ -20,7 +20,7 @@ func init() {
 	}
 	plans["C03"] = plan{
 		Level: "exploration",
-		Parts: []part{{"C", "normal", 12000, 2}, {"C", "limits", 24000, 3}},
+		Parts: []part{{"C", "normal", 12000, 2, 0}, {"C", "limits", 24000, 3, 0}},
 		Rule: "each run = one seeded scenario (1-4 generations on one queue directory; per generation a sequence of Accept calls with boundary-biased sizes, " +
 			"a consumer script confirm/hold/stall/never-start/stop-early, Destroy at an arbitrary point; memory window, queue capacity and byte quota drawn per run; " +
 			"optionally an unusable queue directory) executed under one seeded goroutine schedule on the simulated disk. Oracle: conservation (confirmed => file gone; " +
@@ -37,7 +37,7 @@ func init() {
 	}
 	plans["C04"] = plan{
 		Level: "fault_enumeration",
-		Parts: []part{{"C", "disk", 30000, 2}, {"C", "enum", 320, 3}},
+		Parts: []part{{"C", "disk", 30000, 2, 0}, {"C", "enum", 320, 3, 0}},
 		Rule: "world C with disk faults. Profile disk: 1-3 seeded faults per run (short write with nil error, error after k bytes, ENOSPC/EIO/EDQUOT at create/write/close/unlink/read, " +
 			"kill at an operation or after k bytes of a write, unreadable file), then restarts and a final healthy generation. Profile enum: for each seeded base scenario the " +
 			"fault-free run records the file-system trace; the scenario is then re-run once per fault point: every create/write/close of every chunk file x {kill, error} and for " +
@@ -52,7 +52,7 @@ func init() {
 	}
 	plans["C08"] = plan{
 		Level: "exploration",
-		Parts: []part{{"E", "mixed", 40000, 3}, {"E", "single", 15000, 1}, {"E", "sweep", 48, 3}},
+		Parts: []part{{"E", "mixed", 40000, 3, 0}, {"E", "single", 15000, 1, 0}, {"E", "sweep", 48, 3, 0}},
 		Rule: "each run = 1-2 client connections, each a newline-terminated stream of single- and multi-line records with interspersed garbage lines, cut into read " +
 			"fragments (segment-preserving simulated TCP: one client write = one agent read) with pauses drawn around the flush interval (0, just below, equal, just above, multiples), " +
 			"under one seeded goroutine schedule; profile sweep additionally runs ALL 1-cut and 2-cut splits of each short base stream. Oracle: emitted messages vs an independent " +
@@ -65,5 +65,18 @@ func init() {
 			"record and line-buffer limits are scaled down consistently (record limit 512 B, line buffer 4x) and records stay below them",
 			"streams are newline-terminated (the property's quantifier); a partial last line is covered by C01/C07's partial-tail rule",
 		},
+	}
+	plans["C17"] = plan{
+		Level: "exploration",
+		Parts: []part{{"D", "api2", 12000, 2, 250}, {"D", "api", 12000, 2, 250}, {"D", "composed", 8000, 3, 250}},
+		Rule: "world D: the real ReloadableOrchestrator with recording downstream orchestrators; 1-2 SIGHUPs (accepted or rejected by the scripted initiateReload) delivered through " +
+			"simsignal at arbitrary scheduling points while 2-6 connections register, use and close their sinks. Level api2 = the small case of the property (two connections, one " +
+			"reload, all at one instant; the distinct-interleaving count is reported to show saturation); level api = more connections/reloads with unique client numbers; level composed = " +
+			"real TCP listener + parsing receiver on simnet with the kernel's lowest-free descriptor rule, connections opening right when others close. Oracle: R1 no call reaches a sink " +
+			"of a shut-down orchestrator, R2 every record reaches exactly one downstream sink, R3 a sink is used only by its own connection and never by two goroutines at once, " +
+			"R4 sinks closed before shutdown and nothing leaked, R5 reload counters and orchestrator count match the scripted outcomes, R6 no panic. Non-trivial: a reload happened.",
+		Real:       []string{"run/reloadable.go (ReloadableOrchestrator, ReloadableSink)", "composed level: input/tcplistener, bsupport.logParsingReceiver, syslogparser", "gotils channels"},
+		Stub:       []string{"downstream orchestrators and sinks (recording)", "InitiateReloadingFunc (scripted)", "SIGHUP (simsignal)", "TCP + descriptor numbers (simnet)"},
+		Assumption: []string{"the api levels respect the code's own assumption that client numbers are unique among open sinks; the composed level does not assume it"},
 	}
 }
